@@ -2,5 +2,6 @@
 package checks
 
 import (
+	_ "verifmc/checks/c01"
 	_ "verifmc/checks/c15"
 )
